@@ -23,7 +23,7 @@ def value_of(kind, leaf, rng_vals):
     v = rng_vals[leaf]
     if kind == "string":
         return f'String::from("s{v}")', f"s{v}", True
-    if kind == "str":
+    if kind in ("str", "lstr"):
         return f'"r{v}"', f"r{v}", True
     return str(v), str(v), False
 
@@ -69,6 +69,10 @@ class Prog:
                 params.append(f"s{d}: String"); logs.append(f"s{d}.clone()"); leaf += 1
             elif k == "str":
                 params.append(f"r{d}: &str"); logs.append(f"r{d}.to_string()"); leaf += 1
+            elif k == "lstr":
+                # an EXPLICIT lifetime binder on the function: the parameter stays on the generated method (`fn f<'l1>(..)`)
+                gens.insert(0, f"'l{j}")
+                params.append(f"r{d}: &'l{j} str"); logs.append(f"r{d}.to_string()"); leaf += 1
             elif k == "tuple":
                 params.append(f"(x{d}, y{d}): (i32, i32)"); logs.append(f'format!("{{:?}}", x{d})'); logs.append(f'format!("{{:?}}", y{d})'); leaf += 2
             elif k == "wild":
